@@ -76,6 +76,11 @@ def _use_index(a, b):
 
 def equal(a, b, ordered=False, check_index=True, check_names=True):
     """z3 Bool: results a and b are equal (NaN == NaN; order-insensitive unless ordered)"""
+    if isinstance(a, (tuple, list)) and isinstance(b, (tuple, list)):
+        # e.g. the per-partition lengths tuple
+        if len(a) != len(b):
+            raise Mismatch(f"tuple results of different length: {len(a)} vs {len(b)}")
+        return And(*[equal(x, y, ordered, check_index, check_names) for x, y in zip(a, b)])
     structure(a, b, check_names)
     if isinstance(a, (SymScalar, int, float, bool)):
         from .core import lit_cell
